@@ -176,3 +176,126 @@ Lemma mapper_not_injective :
   http_mapper (str "aa") (str "Bb") = http_mapper [] (str "Aa_Bb") /\
   rpc_mapper (str "Aa") (str "Bb") = rpc_mapper [] (str "Aa_Bb").
 Proof. vm_compute. repeat split. Qed.
+
+(* ---- the restriction named in DESIGN.md: when neither the prefix nor the name contains a
+   '.' byte (in particular: prefix over [A-Za-z0-9_/], name a Go identifier) no path element
+   is "." or "..", and path.Join only squeezes slashes. ---- *)
+Definition no_dot (s : bytes) : Prop := ~ In c_dot s.
+
+Lemma tsm_loop_chars sep name : forall acc last c,
+  In c (tsm_loop sep name acc last) -> In c name \/ In c acc \/ c = sep.
+Proof.
+  induction name as [|r rest IH]; intros acc last c H; cbn [tsm_loop] in H.
+  - right. left. apply in_rev. exact H.
+  - destruct (beqb last c_us).
+    + destruct (beqb r c_us).
+      * apply IH in H. cbn [In]. tauto.
+      * apply IH in H. destruct acc as [|a t]; cbn [In] in *; intuition (subst; auto).
+    + destruct (beqb last x00 && beqb r c_us); apply IH in H; cbn [In] in *; tauto.
+Qed.
+
+Lemma snake_loop_chars s : forall j c, In c (snake_loop s j) -> In c s \/ c = c_us.
+Proof.
+  induction s as [|d r IH]; intros j c H; cbn [snake_loop] in H; [destruct H|].
+  destruct (is_upper d).
+  - destruct j; cbn [In] in H.
+    + destruct H as [H|[H|H]]; [right; auto | left; left; exact H |].
+      apply IH in H. cbn [In]. tauto.
+    + destruct H as [H|H]; [left; left; exact H|]. apply IH in H. cbn [In]. tauto.
+  - destruct (beqb d c_us); cbn [In] in H; (destruct H as [H|H]; [left; left; exact H|]);
+      apply IH in H; cbn [In]; tauto.
+Qed.
+
+Lemma to_lower_dot b : to_lower b = c_dot -> b = c_dot.
+Proof. destruct b; vm_compute; intros H; try discriminate H; reflexivity. Qed.
+
+Lemma replace2_cons2 a b new x y r' :
+  replace2 a b new (x :: y :: r') =
+  if beqb x a && beqb y b then new ++ replace2 a b new r' else x :: replace2 a b new (y :: r').
+Proof. reflexivity. Qed.
+
+Lemma replace2_chars a b new : forall n s, length s <= n ->
+  forall c, In c (replace2 a b new s) -> In c s \/ In c new.
+Proof.
+  induction n as [|n IH]; intros s Hl c H.
+  - destruct s; [destruct H | cbn in Hl; lia].
+  - destruct s as [|x r]; [destruct H|]. destruct r as [|y r'].
+    + cbn in H. left. exact H.
+    + rewrite replace2_cons2 in H. destruct (beqb x a && beqb y b).
+      * apply in_app_iff in H. destruct H as [H|H]; [right; exact H|].
+        apply IH in H; [|cbn in Hl |- *; lia]. cbn [In]. tauto.
+      * destruct H as [H|H]; [left; left; exact H|].
+        apply IH in H; [|cbn in Hl |- *; lia]. cbn [In] in *. tauto.
+Qed.
+
+Lemma to_service_methods_no_dot name sep to_snake :
+  no_dot name -> sep <> c_dot -> no_dot (to_service_methods name sep to_snake).
+Proof.
+  intros Hn Hs. unfold to_service_methods, no_dot.
+  assert (H0 : ~ In c_dot (tsm_loop sep name [] x00)).
+  { intros H. apply tsm_loop_chars in H. destruct H as [H|[[]|H]]; [exact (Hn H) | exact (Hs (eq_sym H))]. }
+  destruct to_snake; [|exact H0]. intros H.
+  apply (replace2_chars _ _ _ _ _ (le_n _)) in H. destruct H as [H|[H|[]]]; [|exact (Hs H)].
+  apply (replace2_chars _ _ _ _ _ (le_n _)) in H. destruct H as [H|[H|[]]]; [|discriminate H].
+  unfold snake_string in H. apply in_map_iff in H. destruct H as (d & Hd & Hin).
+  apply to_lower_dot in Hd. subst d. apply snake_loop_chars in Hin.
+  destruct Hin as [Hin|Hin]; [exact (H0 Hin) | discriminate Hin].
+Qed.
+
+Lemma split_on_chars sep s : forall cur seg c,
+  In seg (split_on sep s cur) -> In c seg -> In c cur \/ In c s.
+Proof.
+  induction s as [|x r IH]; intros cur seg c Hs Hc; cbn [split_on] in Hs.
+  - destruct Hs as [<-|[]]. left. apply in_rev. exact Hc.
+  - destruct (beqb x sep).
+    + destruct Hs as [<-|Hs]; [left; apply in_rev; exact Hc|].
+      destruct (IH _ _ _ Hs Hc) as [[]|H]. right. right. exact H.
+    + destruct (IH _ _ _ Hs Hc) as [[H|H]|H]; cbn [In]; subst; tauto.
+Qed.
+
+Definition nonempty (s : bytes) : bool := match s with [] => false | _ => true end.
+
+Lemma clean_fold_plain segs : forall stack,
+  Forall no_dot segs ->
+  fold_left clean_step segs stack = rev (filter nonempty segs) ++ stack.
+Proof.
+  induction segs as [|s r IH]; intros stack H; cbn [fold_left filter]; [reflexivity|].
+  inversion H as [|? ? Hs Hr]; subst. rewrite (IH _ Hr). unfold clean_step.
+  destruct s as [|c t]; cbn [nonempty]; [reflexivity|].
+  destruct (bytes_eqb (c :: t) [c_dot]) eqn:E1.
+  { apply bytes_eqb_eq in E1. exfalso. apply Hs. rewrite E1. left. reflexivity. }
+  destruct (bytes_eqb (c :: t) [c_dot; c_dot]) eqn:E2.
+  { apply bytes_eqb_eq in E2. exfalso. apply Hs. rewrite E2. left. reflexivity. }
+  cbn [rev]. rewrite <- app_assoc. reflexivity.
+Qed.
+
+Lemma http_mapper_plain prefix name :
+  no_dot prefix -> no_dot name ->
+  http_mapper prefix name =
+  c_sl :: join_with c_sl
+            (filter nonempty (split_on c_sl (prefix ++ c_sl :: to_service_methods name c_sl true) [])).
+Proof.
+  intros Hp Hn. unfold http_mapper, clean_rooted.
+  set (body := prefix ++ c_sl :: to_service_methods name c_sl true).
+  assert (Hb : no_dot body).
+  { unfold body, no_dot. rewrite in_app_iff. cbn [In]. intros [H|[H|H]]; [exact (Hp H) | discriminate H |].
+    revert H. apply to_service_methods_no_dot; [exact Hn | discriminate]. }
+  assert (Hsegs : Forall no_dot (split_on c_sl (c_sl :: c_sl :: body) [])).
+  { apply Forall_forall. intros seg Hs Hc.
+    destruct (split_on_chars _ _ _ _ _ Hs Hc) as [[]|[H|[H|H]]]; [discriminate H | discriminate H | exact (Hb H)]. }
+  rewrite (clean_fold_plain _ [] Hsegs), app_nil_r, rev_involutive.
+  cbn [split_on]. rewrite !beqb_refl. cbn [rev filter nonempty]. reflexivity.
+Qed.
+
+Lemma plain_prefix_no_dot s : plain_prefix s = true -> no_dot s.
+Proof.
+  unfold plain_prefix, no_dot. intros H Hin. rewrite forallb_forall in H. apply H in Hin.
+  vm_compute in Hin. discriminate Hin.
+Qed.
+
+Lemma is_ident_no_dot s : is_ident s = true -> no_dot s.
+Proof.
+  unfold is_ident, no_dot. destruct s as [|c r]; [discriminate|]. intros H Hin.
+  apply andb_true_iff in H. destruct H as [_ H]. rewrite forallb_forall in H. apply H in Hin.
+  vm_compute in Hin. discriminate Hin.
+Qed.
